@@ -109,7 +109,35 @@ fn scenario(k: u64, rng: &mut Rng, tier: Tier) -> Scenario {
         };
     }
     // random ranges |l|,|u| <= 2^20, fractional bounds, powers of two +- 1
-    let (l, u) = match rng.below(4) {
+    let (l, u) = match rng.below(6) {
+        4 => {
+            // corners of the quantified range and widths 2^k + d anchored at its ends
+            let m = 1048576i64;
+            match rng.below(3) {
+                0 => *rng.pick(&[(-m as f64, m as f64), (-m as f64, (m - 1) as f64), ((-m + 1) as f64, m as f64), (0.0, m as f64), (-m as f64, 0.0)]),
+                1 => {
+                    let w = ((1i64 << rng.range(1, 21)) + rng.range(-1, 2)).clamp(1, 2 * m);
+                    (-m as f64, (-m + w) as f64)
+                }
+                _ => {
+                    let w = ((1i64 << rng.range(1, 21)) + rng.range(-1, 2)).clamp(1, 2 * m);
+                    ((m - w) as f64, m as f64)
+                }
+            }
+        }
+        5 => {
+            // bounds a hair's breadth on either side of an integer
+            let a = rng.range(-1000, 1000);
+            let w = rng.range(0, 40);
+            let d = *rng.pick(&[4.76837158203125e-7, 1e-7, 1e-9, 9.5367431640625e-7, 1e-12]);
+            let lo = a as f64 + *rng.pick(&[d, -d, 0.0]);
+            let hi = (a + w) as f64 + *rng.pick(&[d, -d, 0.0]);
+            if lo <= hi {
+                (lo, hi)
+            } else {
+                (hi, lo)
+            }
+        }
         0 => {
             let a = rng.range(-1048576, 1048576);
             let b = rng.range(-1048576, 1048576);
@@ -155,7 +183,7 @@ impl Property for C12 {
         }
     }
     fn rule(&self) -> &'static str {
-        "cases 0..W*5 enumerate every width 0..W-1 (W=513 quick, 4097 thorough) at 5 offsets/shapes (0, -3, fractional ends around 1000.5, -2^20, fractional centred); the remaining cases draw random ranges with |l|,|u| <= 2^20 (integers, powers of two +-1, fractional ends) and, every 8th case, one error class (unknown id, binary / continuous / semi-integer kind, no bound, upper / lower / both bounds infinite, no integer inside). For each success the set of values of the returned Linear over all bit patterns is computed exactly by subset-sum reachability (width <= 2^16) or the complete-sequence criterion and must equal {ceil(l)..floor(u)}; the appended variables are checked; failures must leave the instance equal. The bit loop is observed through hook log_encode.bit with a budget of 1100 steps. Non-trivial = every case with width >= 1; distinct = fingerprint of (lower, upper, variable layout)."
+        "cases 0..W*5 enumerate every width 0..W-1 (W=513 quick, 4097 thorough) at 5 offsets/shapes (0, -3, fractional ends around 1000.5, -2^20, fractional centred); the remaining cases draw random ranges with |l|,|u| <= 2^20 (integers, powers of two +-1, fractional ends, the corners [-2^20, 2^20] and widths 2^k+d anchored at them, bounds within 1e-12..1e-6 of an integer on either side) and, every 8th case, one error class (unknown id, binary / continuous / semi-integer kind, no bound, upper / lower / both bounds infinite, no integer inside). For each success the set of values of the returned Linear over all bit patterns is computed exactly by subset-sum reachability (width <= 2^16) or the complete-sequence criterion and must equal {ceil(l)..floor(u)}; the appended variables are checked; failures must leave the instance equal. The bit loop is observed through hook log_encode.bit with a budget of 1100 steps. Non-trivial = every case with width >= 1; distinct = fingerprint of (lower, upper, variable layout)."
     }
     fn assumptions(&self) -> Vec<&'static str> {
         vec!["variable ids < 2^62 (fresh ids are max+1); bounds are finite f64 with |.| <= 2^20 except in the error classes"]
